@@ -172,6 +172,18 @@ def cases(impl, thorough=False):
     add('max_dim', ('TF', 'max'), [T((2, 3)), 1], lambda a: (2,))
     add('min_all', ('TF', 'min'), [T((2, 3)), None], lambda a: ())
     add('min_dim_keep', ('TF', 'min'), [T((2, 3)), 0, True], lambda a: (1, 3))
+    add('max_tuple', ('TF', 'max'), [T((2, 3, 4)), (0, -1)], lambda a: (3,))
+    add('min_tuple_keep', ('TF', 'min'), [T((2, 3, 4)), (1, 2), True], lambda a: (2, 1, 1))
+    add('max_0d_dim0', ('TF', 'max'), [T(()), 0], lambda a: ())
+    add('min_0d_dimm1', ('TF', 'min'), [T(()), -1], lambda a: ())
+    add('sum_0d_dim0', ('TF', 'sum'), [T(()), 0], lambda a: ())
+    add('mean_0d_all', ('TF', 'mean'), [T(())], lambda a: ())
+    add('squeeze_neg', ('TF', 'squeeze'), [T((2, 3, 1)), -1], lambda a: (2, 3))
+    add('squeeze_tuple_neg', ('TF', 'squeeze'), [T((1, 2, 1)), (-1, 0)], lambda a: (2,))
+    add('squeeze_0d', ('TF', 'squeeze'), [T(()), 0], lambda a: ())
+    add('flatten_0d', ('TF', 'flatten'), [T(())], lambda a: (1,))
+    add('flatten_zero_size', ('TF', 'flatten'), [T((2, 0, 3)), 0, 1], lambda a: (0, 3))
+    add('addmm_1d', ('TF', 'addmm'), [T((4,)), T((2, 3)), T((3, 4))], lambda a, b, c: (2, 4))
     add('squeeze', ('TF', 'squeeze'), [T((2, 1, 3)), 1], lambda a: (2, 3))
     add('squeeze_all', ('TF', 'squeeze'), [T((1, 2, 1))], lambda a: (2,))
     add('squeeze_tuple', ('TF', 'squeeze'), [T((1, 2, 1)), (0, 2)], lambda a: (2,))
